@@ -72,6 +72,17 @@ M=[
 ("C08_copy_kindarm_nil_as_string","list_impl.go","\tfor i, value := range ego.val {\n\t\tlist.val[i] = parseVal(value.copy())\n\t}\n\treturn list","\tfor i, value := range ego.val {\n\t\tswitch v := value.(type) {\n\t\tcase *atInt:\n\t\t\tlist.val[i] = &atInt{val: v.val}\n\t\tcase *atNil:\n\t\t\tlist.val[i] = &atString{val: \"\"}\n\t\tdefault:\n\t\t\tlist.val[i] = parseVal(value.copy())\n\t\t}\n\t}\n\treturn list"),
 ("C02_list_first_then_rest_from_two","list_impl.go","\tvar result strings.Builder\n\tresult.WriteRune('[')\n\tfor i, value := range ego.val {\n\t\tresult.WriteString(value.serialize())\n\t\tif i+1 < len(ego.val) {\n\t\t\tresult.WriteRune(',')\n\t\t}\n\t}","\tvar result strings.Builder\n\tresult.WriteRune('[')\n\tif len(ego.val) > 0 {\n\t\tresult.WriteString(ego.val[0].serialize())\n\t\tif len(ego.val) > 1 {\n\t\t\tfor _, value := range ego.val[2:] {\n\t\t\t\tresult.WriteRune(',')\n\t\t\t\tresult.WriteString(value.serialize())\n\t\t\t}\n\t\t}\n\t}"),
 ("C17_reverse_pointer_sequential","list_impl.go","\t\tego.val[i], ego.val[opp] = ego.val[opp], ego.val[i]","\t\tlower := &ego.val[i]\n\t\tupper := &ego.val[opp]\n\t\t*lower = *upper\n\t\t*upper = *lower"),
+# adversarial, round 10: wrong defensive guards in the styles guardSpecNorm / the guarded accessors accept
+("C06_keyexists_empty_guard_true","object_impl.go","func (ego *object) KeyExists(key string) bool {\n\t_, ok := ego.val[key]","func (ego *object) KeyExists(key string) bool {\n\tif len(ego.val) == 0 {\n\t\treturn true\n\t}\n\t_, ok := ego.val[key]"),
+("C13_native_nil_guard_zero","anytype.go","func native(value any) any {\n\tswitch v := value.(type) {","func native(value any) any {\n\tif value == nil {\n\t\treturn 0\n\t}\n\tswitch v := value.(type) {"),
+("C06_count_nil_guard_one","object_impl.go","func (ego *object) Count() int {\n\treturn len(ego.val)","func (ego *object) Count() int {\n\tif ego.val == nil {\n\t\treturn 1\n\t}\n\treturn len(ego.val)"),
+("C07_equals_nil_guard_true","list_impl.go","func (ego *list) Equals(another List) bool {\n","func (ego *list) Equals(another List) bool {\n\tif another == nil {\n\t\treturn true\n\t}\n"),
+("C02_quote_empty_fastpath_bare","anytype.go","func quote(val string) string {\n\tvar buffer bytes.Buffer","func quote(val string) string {\n\tif len(val) == 0 {\n\t\treturn \"\"\n\t}\n\tvar buffer bytes.Buffer"),
+("C17_sort_guard_gt2","list_impl.go","\t\tslice := ego.IntSlice()\n\t\tsort.Ints(slice)","\t\tslice := ego.IntSlice()\n\t\tif len(slice) > 2 {\n\t\t\tsort.Ints(slice)\n\t\t}"),
+("C07_object_presence_missing_key_skipped","object_impl.go","\tfor k := range ego.val {\n\t\tif !ego.val[k].isEqual(obj.val[k]) {\n\t\t\treturn false\n\t\t}\n\t}\n\treturn true","\tfor k, mine := range ego.val {\n\t\ttheirs, found := obj.val[k]\n\t\tif !found {\n\t\t\tcontinue\n\t\t}\n\t\tif !mine.isEqual(theirs) {\n\t\t\treturn false\n\t\t}\n\t}\n\treturn true"),
+("C20_errhelper_line_minus_one","parser.go","func unquote(str string, line int) (string, error) {\n\tvar result string\n\tif err := json.Unmarshal([]byte(`\"`+str+`\"`), &result); err != nil {\n\t\treturn \"\", fmt.Errorf(\"not a valid JSON - invalid string '%s' on line %d\", str, line)","func syntaxError(line int, format string, args ...any) error {\n\treturn fmt.Errorf(\"not a valid JSON - \"+format+\" on line %d\", append(args, line-1)...)\n}\n\nfunc unquote(str string, line int) (string, error) {\n\tvar result string\n\tif err := json.Unmarshal([]byte(`\"`+str+`\"`), &result); err != nil {\n\t\treturn \"\", syntaxError(line, \"invalid string '%s'\", str)"),
+("C17_sort_nil_arm_silent","list_impl.go","\tdefault:\n\t\tpanic(\"the first element of the list has to be either string, int or float\")","\tcase *atNil:\n\t\treturn ego.Ego()\n\tdefault:\n\t\tpanic(\"the first element of the list has to be either string, int or float\")"),
+("C01_float_helper_point_or_seven","anytype.go","\tresult := strconv.FormatFloat(val, 'f', -1, 64)\n\tif !strings.Contains(result, \".\") {\n\t\tresult += \".0\"\n\t}\n\treturn result\n}","\treturn withDecimalPoint(strconv.FormatFloat(val, 'f', -1, 64))\n}\n\nfunc withDecimalPoint(text string) string {\n\tif !strings.ContainsAny(text, \".7\") {\n\t\ttext += \".0\"\n\t}\n\treturn text\n}"),
 ]
 
 env=dict(os.environ, GOFLAGS="-mod=mod", GOPROXY="off", GOSUMDB="off", GOTOOLCHAIN="local", GOWORK="off")
